@@ -1,0 +1,127 @@
+//go:build verif
+
+package timeout
+
+// Contracts for the deductive verifier in /verif (gocv). Comment-only file,
+// compiled only under the `verif` build tag.
+
+// ---- the futures heap: every element knows its own position ----
+// index invariant: slot i holds a future whose idx is i (so the slots are pairwise distinct)
+//@ pred (fs *futures) wfIdx() = fs != nil && 0 <= len(*fs) && forall(i, 0, len(*fs), (*fs)[i] != nil && allocated((*fs)[i]) && (*fs)[i].idx == i)
+// g is in the heap: its idx names a slot and that slot holds g
+//@ pred (fs *futures) holds(g *future) = g != nil && 0 <= g.idx && g.idx < len(*fs) && (*fs)[g.idx] == g
+
+//@ func (fs *futures) Len() int
+//@   props C12
+//@   underlock lock
+//@   requires fs != nil
+//@   ensures r0 == len(*fs) && 0 <= r0 && r0 <= 1<<47
+
+//@ func (fs *futures) Less(i int, j int) bool
+//@   props C12
+//@   underlock lock
+//@   requires fs.wfIdx() && 0 <= i && i < len(*fs) && 0 <= j && j < len(*fs)
+//@   ensures r0 == before((*fs)[i].fireT, (*fs)[j].fireT)
+
+// Swap exchanges two slots and keeps both idx fields current: membership of every future is unchanged
+//@ func (fs *futures) Swap(i int, j int)
+//@   props C12
+//@   underlock lock
+//@   requires fs.wfIdx() && 0 <= i && i < len(*fs) && 0 <= j && j < len(*fs)
+//@   modifies (*fs)[*], each(g, *future, fs.holds(g), g.idx)
+//@   ensures fs.wfIdx() && len(*fs) == old(len(*fs))
+//@   ensures (*fs)[i] == old((*fs)[j]) && (*fs)[j] == old((*fs)[i]) && forall(k, 0, len(*fs), k != i && k != j ==> (*fs)[k] == old((*fs)[k]))
+//@   ensures forall(g, *future, fs.holds(g) == old(fs.holds(g)))
+//@   ensures forall(g, *future, g != (*fs)[i] && g != (*fs)[j] ==> g.idx == old(g.idx))
+
+// Push appends x (which is not in the heap) and records its slot
+//@ func (fs *futures) Push(x any)
+//@   props C12
+//@   underlock lock
+//@   requires fs.wfIdx() && typeIs(x, *future) && cast(*future, x) != nil && cast(*future, x).idx < 0
+//@   modifies *fs, (*fs)[*], spare(*fs), cast(*future, x).idx
+//@   ensures fs.wfIdx() && len(*fs) == old(len(*fs)) + 1 && (*fs)[len(*fs) - 1] == cast(*future, x)
+//@   ensures forall(k, 0, len(*fs) - 1, (*fs)[k] == old((*fs)[k]))
+//@   ensures forall(g, *future, g != cast(*future, x) ==> fs.holds(g) == old(fs.holds(g)))
+// append extends in place (into the spare capacity) or moves to fresh storage
+//@   ensures fresh(*fs) || (sameArray(*fs, old(*fs)) && off(*fs) == old(off(*fs)) && len(*fs) <= old(cap(*fs)))
+
+// Pop removes the last slot and marks the future as not in the heap
+//@ func (fs *futures) Pop() any
+//@   props C12
+//@   underlock lock
+//@   requires fs.wfIdx() && len(*fs) > 0
+//@   modifies *fs, (*fs)[*], each(g, *future, g == (*fs)[len(*fs) - 1], g.idx)
+//@   ensures fs.wfIdx() && len(*fs) == old(len(*fs)) - 1
+//@   ensures typeIs(r0, *future) && cast(*future, r0) == old((*fs)[len(*fs) - 1]) && cast(*future, r0).idx == 0 - 1
+//@   ensures forall(k, 0, len(*fs), (*fs)[k] == old((*fs)[k]))
+//@   ensures forall(g, *future, g != cast(*future, r0) ==> fs.holds(g) == old(fs.holds(g)))
+
+// ---- the scheduler: one package-level callControl, everything below its lock ----
+//@ global cc nonnil
+// every future with a non-negative idx sits in THE heap at that slot; every future in the heap still has its function
+// (Cancel clears f and removes the future in one critical section)
+//@ pred (c *callControl) wf() = c != nil && c.futures != nil && c.futures.wfIdx() && c.wakeCh != nil &&
+//@      forall(g, *future, c.futures.holds(g) ==> g.f != nil) &&
+//@      forall(g, *future, allocated(g) ==> g.idx < 0 || c.futures.holds(g))
+// guarded by c.lock: the worker count, the heap slice (header and slots) and every future's idx and f.
+// fireT is written once before the future is published.
+//@ monitor c callControl lock guards watchers futures.arr futures.off futures.len futures.cap []*timeout.future future.idx future.f invariant c.wf()
+
+// the package initialiser builds the (empty) scheduler in a consistent state
+//@ func init()
+//@   props C12
+//@   noframe
+//@   ensures cc != nil && cc.futures != nil && cc.futures.wfIdx() && len(*cc.futures) == 0 && cc.wakeCh != nil && cc.watchers == 0
+
+// no future other than fu is touched: membership, function and fire time of every other future are unchanged
+//@ pred (c *callControl) othersKept(fu *future) = forall(g, *future, g != fu ==> c.futures.holds(g) == old(c.futures.holds(g)) && g.f == old(g.f) && g.fireT == old(g.fireT))
+
+//@ func (c *callControl) notifyWatcher()
+//@   inline
+
+//@ func (c *callControl) add(fu *future)
+//@   props C12
+//@   requires c.wf() && fu != nil && fu.idx < 0 && fu.f != nil
+//@   modifies *c.futures, (*c.futures)[*], spare(*c.futures), each(g, *future, c.futures.holds(g) || g == fu, g.idx), c.watchers
+//@   ensures c.wf() && c.futures.holds(fu) && c.othersKept(fu) && fu.f == old(fu.f) && fu.fireT == old(fu.fireT)
+
+// cancel removes exactly fu (if it is still scheduled) and clears its function; a future that already fired or was
+// cancelled (idx < 0) is left alone; no other future is affected
+//@ func (c *callControl) cancel(fu *future)
+//@   props C12
+//@   requires c.wf() && fu != nil
+//@   modifies *c.futures, (*c.futures)[*], each(g, *future, c.futures.holds(g), g.idx), fu.f
+//@   ensures c.wf() && !c.futures.holds(fu) && fu.idx < 0 && c.othersKept(fu) && len(*c.futures) <= old(len(*c.futures))
+//@   ensures old(fu.idx) < 0 ==> fu.f == old(fu.f) && len(*c.futures) == old(len(*c.futures))
+//@   ensures old(fu.idx) >= 0 ==> fu.f == nil && len(*c.futures) == old(len(*c.futures)) - 1
+
+//@ func (fu *future) Cancel()
+//@   props C12
+//@   requires cc.wf() && fu != nil
+//@   modifies *cc.futures, (*cc.futures)[*], each(g, *future, cc.futures.holds(g), g.idx), fu.f
+//@   ensures cc.wf() && !cc.futures.holds(fu) && fu.idx < 0 && cc.othersKept(fu)
+//@   ensures old(fu.idx) < 0 ==> fu.f == old(fu.f)
+
+// Call schedules a fresh future that fires at (the clock reading of the call) + timeout
+//@ func Call(f func(), timeout time.Duration) Future
+//@   props C12
+//@   requires cc.wf()
+//@   modifies *cc.futures, (*cc.futures)[*], spare(*cc.futures), each(g, *future, cc.futures.holds(g), g.idx), cc.watchers, clock
+//@   ensures typeIs(r0, *future) && fresh(cast(*future, r0)) && cast(*future, r0).f == f && cast(*future, r0).fireT == tadd(clock, timeout) && !before(clock, old(clock))
+//@   ensures cc.wf() && (f != nil ==> cc.futures.holds(cast(*future, r0))) && (f == nil ==> cast(*future, r0).idx < 0) && cc.othersKept(cast(*future, r0))
+
+// the function a worker starts belongs to a future that is due (its fire time lies before a clock reading taken
+// under the lock), is out of the heap (idx < 0: it was popped - it can never be popped again) and was not cancelled
+// (Cancel clears f before removing)
+//@ assumed func (f func()) call()
+//@   requires [C12] due: exists(g, *future, g.f == f && g.idx < 0 && before(g.fireT, clock))
+//@   modifies everything
+
+//@ func (c *callControl) watcher()
+//@   props C12
+//@   requires c != nil
+//@   modifies everything
+//@   loop 1
+//@     invariant c != nil && c == c0
+//@     invariant f != nil ==> exists(g, *future, g.f == f && g.idx < 0 && before(g.fireT, clock))
